@@ -1,15 +1,15 @@
-"""Source-level K1 tables: collects the `TABLES` lists of every `tools/props/*_translate.py` module.
+"""Source-level / run-time K1 tables beyond GenConsts.v.
 
-Each entry of a module's `TABLES` is a function () -> (ok, log) that (re)writes one file under
-coq/Generated from the repository's working tree (core.REPO) and fails loudly (ok = False) when the
-source no longer fits the grammar it understands.  Property checks that need a table put it in their own
-`tools/props/<id>_translate.py`; nothing else has to be registered.
+`TABLES` is the list of generator functions `() -> (ok, log)` run by translate.regenerate() on every
+check and by `./check --setup`. Generators live next to the property that needs them and are collected here:
+  * every module `tools/props/*_translate.py` may export `TABLES = [function, ...]`;
+  * every module `tools/props/*.py` may export `K1_TABLES = [function, ...]`.
+Each function (re)writes one file under coq/Generated from the repository's working tree (core.REPO) and
+fails loudly (ok = False) when the source no longer fits the grammar it understands.
 """
 import importlib
 import os
-import sys
-
-_PROPS = os.path.join(os.path.dirname(os.path.dirname(os.path.abspath(__file__))), 'props')
+import pkgutil
 
 TABLES = []
 
@@ -20,11 +20,26 @@ def _wrap(name, f):
             return f()
         except Exception as e:     # a translator crash is a broken translation, not a crash of the check
             return False, '%s: translator raised %s: %s' % (name, type(e).__name__, e)
+    g.__name__ = getattr(f, '__name__', 'table')
     return g
 
 
-for _f in sorted(os.listdir(_PROPS)):
-    if _f.endswith('_translate.py'):
-        _m = importlib.import_module('props.' + _f[:-3])
-        for _t in getattr(_m, 'TABLES', []):
-            TABLES.append(_wrap(_f[:-3], _t))
+def _collect():
+    import props
+    seen = set()
+    for m in sorted(pkgutil.iter_modules(props.__path__), key=lambda x: x.name):
+        try:
+            mod = importlib.import_module('props.' + m.name)
+        except Exception:      # a property module that does not import is that property's problem
+            continue
+        fs = list(getattr(mod, 'K1_TABLES', []))
+        if m.name.endswith('_translate'):
+            fs += list(getattr(mod, 'TABLES', []))
+        for f in fs:
+            key = (f.__module__, f.__name__)
+            if key not in seen:
+                seen.add(key)
+                TABLES.append(_wrap(m.name, f))
+
+
+_collect()
